@@ -1106,9 +1106,13 @@ class C02(Check):
     rule = ("(a) direct calls of every Constraints validator on (value, bound) pairs at and around the bounds (ints, dyadic floats incl. "
             "nan/inf/-0.0/±1ulp, Decimals incl. trailing zeros/exponents/carries, strs, list/tuple/set with ==-duplicates like 1/1.0/True); "
             "(b) declared constrained types (1-4 legal constraints, the library's own declaration checks decide legality) applied to values "
-            "of the source type, with isinstance and a re-parse; (c) an audit of the modelled Python operators against CPython. "
-            "non-trivial = value within 1 step of a bound, or length within 1 of a limit, or a rejected value, or >= 2 constraints; "
-            "distinct by (constraints, value)")
+            "of the source type, with isinstance and a re-parse; (c) an audit of the modelled Python operators against CPython; "
+            "(d) declared types built every way (2-3 Rule bases, 3 levels, diamond, override, cancel, rename, Rule.annotate, Base[...], "
+            "Field(...) on Schema/DataClass) with the constraint set partitioned over the classes, contains/min_contains/max_contains with "
+            "counts at 0, 1, bound-1, bound, bound+1, element types, post_validate hooks, types whose only check is contains or a hook: "
+            "real __validators__ vs constraints visible through the MRO, isinstance vs parse verdict vs independent oracle. "
+            "non-trivial = value within 1 step of a bound, or length within 1 of a limit, or a rejected value, or >= 2 constraints, "
+            "or any declared-type case whose declaration the library accepted; distinct by (declaration, value)")
     assumptions = ["Py.* operator semantics (lean/Utv/Py/Basic.lean) and Prims (repr/str of floats and Decimals, re.fullmatch, float round) "
                    "are CPython's: audited on every run by the 'cmp' stream and by running every generated validator against the real one",
                    "float arithmetic (%, //, round on floats) is outside the Lean model: covered by the correspondence/oracle only"]
